@@ -7,6 +7,9 @@
  *  4 PARSENUM instantiation byte 1 % 12                     5 sock_resolve(_one)
  *  6 sock_addr_ensure_port   7 sock_addr_deserialize        8 aws_readkeys
  *  9 readpass_file          10 getopt (byte 1: table, opterr; NUL-separated argv)
+ * 11 getopt sequence: parse abandoned after k labels, argv freed, optreset,
+ *    second parse (byte 1: opterr, table, k << 2; byte 2: size of the first
+ *    argv; NUL-separated strings of both)
  * A result outside the documented range prints "C15-BAD: ..." and aborts.
  * Warnings of the library are swallowed (--wrap) to keep stderr small.
  */
@@ -51,7 +54,7 @@ LLVMFuzzerTestOneInput(const uint8_t * data, size_t size)
 	res[0] = '\0';
 	p = data + 1;
 	n = size - 1;
-	switch (data[0] % 11) {
+	switch (data[0] % 12) {
 	case 0: {
 		size_t kl;
 
@@ -126,6 +129,25 @@ LLVMFuzzerTestOneInput(const uint8_t * data, size_t size)
 			}
 		}
 		do_getopt((p[0] >> 1) & 1, p[0] & 1, argc, strs, lens);
+		break;
+	}
+	case 11: {
+		uint8_t * strs[17];
+		size_t lens[17];
+		size_t argc = 0, i, start;
+
+		if (n < 2)
+			return (0);
+		for (start = 2, i = 2; i <= n && argc < 16; i++) {
+			if (i == n || p[i] == '\0') {
+				strs[argc] = (uint8_t *)(uintptr_t)(p + start);
+				lens[argc] = i - start;
+				argc++;
+				start = i + 1;
+			}
+		}
+		do_getopt_seq((p[0] >> 1) & 1, p[0] & 1, (long)(p[0] >> 2),
+		    (size_t)p[1] % (argc + 1), argc, strs, lens);
 		break;
 	}
 	}
